@@ -4,6 +4,9 @@ One case = one right string (or one bare pattern) asked about many paths, so tha
 millions of (right, path) pairs fit in a few thousand wire lines.
   ( 0 admin right ( path ... ) )  auth.Save / auth.Get / User.ValidatePermission (push and pull right)
   ( 1 mask ( path ... ) )         auth.NewPathMatcher(mask).Match(path)
+  ( 2 ( ( admin pw push pull updpw ) ... ) ( path ... ) )
+                                  the same user name saved 1-3 times through auth.Save (existing name -> CopyFrom ->
+                                  init), then auth.Get(name).ValidatePermission, push and pull per path
 The model (Go mirror, x_C16_run) predicts, the oracle (x_C16_ok) is the documented
 language itself (spec_case), proved equal to the mirror for all inputs."""
 import itertools
@@ -159,6 +162,49 @@ def random_cases(rng, ncases, npaths):
             cases.append([1, right, paths])
     return cases
 
+def gen_save(rng, admin, push, pull):
+    return [admin, rng.choice(["", "pw", "secret"]), push, pull, rng.random() < 0.5]
+
+def history_cases(rng, ncases, npaths):
+    """the same user name saved two or three times (auth.Save -> CopyFrom -> init), then asked.
+    Scenarios: demote / promote with an empty right, narrow, widen, withdraw, '*' <-> list, plus free mixes.
+    The paths are derived from the rights of ALL saves, so what an earlier save granted is asked again."""
+    cases = []
+    for k in range(ncases):
+        blanks = rng.choice([0, 0, 0, 0.15])
+        wide = rng.choice(["/a/*", "/rooms/*", "*", "/a/*;/b/*", gen_right(rng, blanks)])
+        narrow = rng.choice(["/a/b", "/rooms/+/entrance", "/a/b/c;/b", gen_right(rng, blanks)])
+        other = gen_right(rng, blanks)
+        kind = k % 9
+        if kind == 0:      # demote with empty right: administrator "" -> ordinary ""
+            h = [(True, "", ""), (False, "", "")]
+        elif kind == 1:    # promote with empty right
+            h = [(False, rng.choice(["", narrow]), ""), (True, "", "")]
+        elif kind == 2:    # narrow
+            h = [(False, wide, wide), (False, narrow, narrow)]
+        elif kind == 3:    # widen
+            h = [(False, narrow, narrow), (False, wide, rng.choice([wide, narrow]))]
+        elif kind == 4:    # withdraw
+            h = [(rng.random() < 0.3, wide, narrow), (False, "", rng.choice(["", " ", ";"]))]
+        elif kind == 5:    # '*' <-> list, administrator flag flips with non-empty rights
+            h = [(True, "*", other), (False, narrow, "*")]
+        elif kind == 6:    # demote, one right empty one not; then a third save
+            h = [(True, "", narrow), (False, "", narrow), (rng.random() < 0.5, rng.choice(["", other]), "")]
+        elif kind == 7:    # promote then demote again
+            h = [(False, narrow, ""), (True, "", ""), (False, "", rng.choice(["", narrow]))]
+        else:              # free mix of two or three saves
+            pool = ["", "", "*", wide, narrow, other, " "]
+            h = [(rng.random() < 0.4, rng.choice(pool), rng.choice(pool)) for _ in range(rng.choice([2, 3]))]
+        if rng.random() < 0.15:
+            h = h[:1] if rng.random() < 0.5 else [h[-1]] + h       # a single save / an extra earlier save
+        h = h[:3]
+        saves = [gen_save(rng, a, pu, pl) for a, pu, pl in h]
+        rights = ";".join(r for _, pu, pl in h for r in (pu, pl)) or "/a"
+        paths = gen_paths(rng, rights if rights.strip(" ;*") else "/a/b;/live/x", npaths, blanks)
+        paths[:3] = ["/live/a", "/a/b", "/"]
+        cases.append([2, saves, paths])
+    return cases
+
 def all_strings(alpha, maxlen):
     out = []
     for L in range(maxlen + 1):
@@ -181,6 +227,8 @@ def exhaustive_cases(rights_alpha, rmax, paths_alpha, pmax, rng, chunk=1200):
 
 def has_blank_edge(case):
     """label only: does some pattern segment of the right / mask carry a leading or trailing blank"""
+    if case[0] == 2:
+        return False
     right = case[2] if case[0] == 0 else case[1]
     right = right if isinstance(right, str) else right.decode("latin-1")
     items = [i.strip() for i in right.split(";")] if case[0] == 0 else [right]
@@ -195,10 +243,17 @@ def has_blank_edge(case):
 def sig(c, e, o):
     if o.startswith("(x21"):
         return "matcher-crash"
+    if c[0] == 2:
+        return "resaved-user-not-as-currently-saved" if len(c[1]) > 1 else "pattern-language"
     return "blank-edged-pattern-segment" if has_blank_edge(c) else "pattern-language"
 
 def npairs(cases):
-    return sum(len(c[3] if c[0] == 0 else c[2]) for c in cases)
+    return sum(len(c[3]) if c[0] == 0 else len(c[2]) * (2 if c[0] == 2 else 1) for c in cases)
+
+def history_matters(c):
+    """a history case is non-trivial when the last save differs from an earlier one in (admin, push, pull)"""
+    last = c[1][-1]
+    return any((sv[0], sv[2], sv[3]) != (last[0], last[2], last[3]) for sv in c[1][:-1])
 
 def run(ck):
     if not ck.prepare():
@@ -210,7 +265,9 @@ def run(ck):
     def go(name, cases, classify=True):
         nonlocal pairs
         # non-trivial = the documented language permits some of the case's paths and refuses others
-        if classify:
+        if classify == "history":
+            nt = history_matters
+        elif classify:
             spec = vlib.run_driver(ck.prop, "C16_spec", [vlib.vs(c) for c in cases])
             keys = {id(c): ("01" in s and "00" in s[1:]) for c, s in zip(cases, spec)}
             nt = lambda c: keys.get(id(c), False)
@@ -233,6 +290,11 @@ def run(ck):
         [0, False, "/a /b", ["/a /b", "/a/b", "/a/c"]],
         [0, False, "/a/ +/c; /x/ *", ["/a/b/c", "/x", "/x/y/z", "/a/c"]],
         [1, " /a/ ", [" /a/ ", "/a", "//a//"]],
+        # the user as currently saved: demote / promote with an empty right, narrow, withdraw (same name saved again)
+        [2, [[True, "admin", "", "", True], [False, "", "", "", False]], ["/live/a", "/a", "/", "/a/b/c"]],
+        [2, [[False, "p", "", "/a", True], [True, "", "", "", False]], ["/live/a", "/a", "/", "/a/b/c"]],
+        [2, [[False, "p", "/a/*", "/a/*", True], [False, "p", "/a/b", "", True]], ["/a", "/a/b", "/a/c", "/a/b/c"]],
+        [2, [[True, "p", "", "/x", True], [False, "p", "", "/x", True], [False, "p", "/y", "", False]], ["/x", "/y", "/z"]],
     ]
     go("documented_examples", doc)
 
@@ -247,9 +309,11 @@ def run(ck):
         ck.extra["exhaustive_pairs"] = total
         go("structured", structured_cases(rng, 6000, 60))
         go("random_strings", random_cases(rng, 6000, 60))
+        go("resave_histories", history_cases(rng, 4000, 60), classify="history")
     else:
         go("structured", structured_cases(rng, 2500, 40))
         go("random_strings", random_cases(rng, 2500, 40))
+        go("resave_histories", history_cases(rng, 900, 40), classify="history")
         cases, nr, np_ = exhaustive_cases("a+*/;", 3, "aA/ ", 4, rng)
         go("exhaustive_small", cases)
     ck.extra["pairs"] = pairs
@@ -261,8 +325,13 @@ def run(ck):
              "stream: random strings over {letters both cases,+,*,/,;,space} (+ a little other ASCII); exhaustive small "
              "scope (thorough: all rights <=5 x all paths <=6 over four reduced alphabets). Non-trivial = the documented "
              "language permits some and refuses some of the case's paths (exhaustive sweeps: the right has a non-empty item). Evaluations count cases; coverage.pairs counts "
-             "(right,path) pairs.",
+             "(right,path) pairs. Re-save stream: one user name saved two or three times through auth.Save (demote / promote "
+             "with an empty right, narrow, widen, withdraw, '*' <-> list, free mixes; admin flag, empty / non-empty / '*' "
+             "rights and password presence vary), then 40+ paths derived from the rights of ALL saves are asked for push "
+             "and pull; the oracle is the documented language on the LAST save alone; non-trivial there = the last save "
+             "differs from an earlier one in (admin, push, pull).",
         trusted=["strings.ToLower/Trim/TrimSpace/Split/IndexRune and unicode.IsSpace are modelled on ASCII bytes only"],
         assumptions=["ASCII right strings and paths (Go lower-cases and trims by rune; the byte model does not cover non-ASCII)",
-                     "one User per right, freshly saved into an empty table (re-initialisation of an existing user is C11/D20)"],
+                     "kinds 0/1 use freshly saved users; kind 2 re-saves one name in an otherwise empty table (other names, "
+                     "Del and the provider's Flush are not part of this property)"],
         exhaustive=ck.thorough)
